@@ -1,6 +1,7 @@
 import FinamModel.DriverUtil
 import FinamModel.Sched
 import FinamModel.Output
+import FinamModel.Net
 /-! Driver handlers for the scheduler model (C01–C05, C13, C20). -/
 namespace Finam.Driver.Sched
 open Lean Finam Finam.Driver
@@ -61,6 +62,22 @@ def handleRunOrd (j : Json) : Json :=
     ("final", jList (fun c => jInt (getNow c)) s'.comps),
     ("dp", jList (jList jInt) s'.dp)]
 
+/-- the run loop on the network model (scheduler + bounded output histories): per update the retained length of
+    every output and whether all pulls were answered -/
+def handleNetRun (j : Json) : Json :=
+  let s := parseState j
+  let hist := (getArr j "hist").map fun l => (arr l).map fun t => (⟨asInt t, ()⟩ : Entry Unit)
+  let neps := (getArr j "neps").map asNat
+  let epTab := (getArr j "ep").map fun e => match arr e with | [c, i, k] => (asNat c, asNat i, asNat k) | _ => (0, 0, 0)
+  let n : Net := { sch := s,
+                   os := fun o => ⟨hist.getD o [], hist.getD o [], List.replicate (neps.getD o 0) none⟩,
+                   ep := fun c i => match epTab.find? (fun e => e.1 == c && e.2.1 == i) with | some e => e.2.2 | none => 0 }
+  let (ups, e, n') := netRunLoop (getNat j "fuel") n (getInt j "end") []
+  Json.mkObj [
+    ("updates", jList (fun p => Json.arr #[jNat p.1, jList jNat p.2.1, Json.bool p.2.2]) ups),
+    ("end", match e with | .done => Json.str "done" | .err x => jSErr x | .outOfFuel => Json.str "outOfFuel"),
+    ("final", jList (fun c => jInt (getNow c)) n'.sch.comps)]
+
 def handleNeed (j : Json) : Json :=
   let dp := (getArr j "dp").map (fun l => (arr l).map asInt)
   let ads := (getArr j "ads").map parseAd
@@ -105,6 +122,6 @@ def handleC13 (j : Json) : Json :=
               ("need0", jOptInt (need (List.replicate ndp []) ads (getInt j "probe")))]
 
 def handlers : List (String × (Json → Json)) :=
-  [("sched_run", handleRun), ("sched_run_ord", handleRunOrd), ("sched_need", handleNeed), ("sched_deps", handleDeps), ("c13", handleC13)]
+  [("sched_run", handleRun), ("sched_run_ord", handleRunOrd), ("net_run", handleNetRun), ("sched_need", handleNeed), ("sched_deps", handleDeps), ("c13", handleC13)]
 
 end Finam.Driver.Sched
